@@ -235,6 +235,26 @@ impl Unifiable {
                     }
                 }
 
+                // This variable is unbound. If the other term is a variable
+                // whose bindings lead back to this variable, the two are already
+                // unified. Binding again would make a cycle.
+                if let Unifiable::LogicVar{id: other_id, name: _} = other {
+                    let mut end_id = *other_id;
+                    loop {
+                        if end_id == id { return Some(Rc::clone(ss)); }
+                        if end_id >= length_src { break; }
+                        match &ss[end_id] {
+                            Some(term) => {
+                                if let Unifiable::LogicVar{id: next_id, name: _} = **term {
+                                    end_id = next_id;
+                                }
+                                else { break; }
+                            },
+                            None => { break; },
+                        }
+                    }
+                }
+
                 let mut length_dst = length_src;
                 if id >= length_dst { length_dst = id + 1; }
 
